@@ -85,18 +85,29 @@ def run(ctx):
     deep = (not ctx.quick) or bool(drift)
     ctx.extra["source_drift"] = drift
     copy = common.fresh_copy(ctx, "c15")
-    plan = [("core_maths", 2, 1), ("core_maths", 3, 1)] if not deep else [("core_maths", 2, 2), ("core_maths", 3, 2), ("core_maths", 4, 1), ("ext_maths", 3, 1)]
+    # (basis, complexity, activations per site, max number of ordinary sites (None = all), priority sites only?)
+    plan = ([("core_maths", 2, 1, None, False), ("core_maths", 3, 1, 40, False), ("core_maths", 4, 1, 0, True)] if not deep else
+            [("core_maths", 2, 2, None, False), ("core_maths", 3, 2, None, False), ("core_maths", 4, 1, None, False), ("ext_maths", 3, 1, None, False),
+             ("ext_maths", 4, 1, 60, True)])
     jobs = []
     nsites = {}
-    for basisname, compl, per_site in plan:
+    for basisname, compl, per_site, max_sites, prio_only in plan:
         rec = _run(ctx, copy, "rec_%s_%d" % (basisname, compl), BASES[basisname], compl, dict(mode="record"))
         if rec.get("status") != "ok":
             ctx.disagree("record-run", "recording run of %s n=%d failed: %s" % (basisname, compl, rec.get("error")))
             continue
-        rec["_src"] = open(os.path.join(copy, "esr", "generation", "simplifier.py")).read().splitlines()
+        src = open(os.path.join(copy, "esr", "generation", "simplifier.py")).read().splitlines()
+        rec["_src"] = src
         sites = _sites(rec)
         nsites["%s:%d" % (basisname, compl)] = dict(activations=rec["activations"], sites=len(sites))
-        for site, acts in sorted(sites.items()):
+        # priority: a fault right after a statement that records something (append) or right before the next one
+        prio = [s_ for s_ in sorted(sites) if ".append(" in src[s_[3] - 1] or ".append(" in src[s_[2] - 1] or "inv_subs_fun[i] =" in src[s_[3] - 1]]
+        rest = [s_ for s_ in sorted(sites) if s_ not in set(prio)]
+        ctx.rng.shuffle(rest)
+        if max_sites is not None:
+            rest = rest[:max_sites]
+        for site in prio + rest:
+            acts = sites[site]
             for (k, n) in ctx.rng.sample(acts, min(per_site, len(acts))):
                 jobs.append((basisname, compl, [[k, n]]))
         if deep:
